@@ -1,14 +1,23 @@
 //! Functions for limiting execution time.
 //!
-//! This module contains a global variable, SUIRON_STOP_QUERY,
-//! and therefore has 'unsafe' code.
+//! This module contains the global stop flag, SUIRON_STOP_QUERY.
+//!
+//! The flag is shared with the timer threads, so it is kept in atomics.
+//! It is represented by two counters: QUERY_EPOCH numbers the queries
+//! (it is incremented whenever a query or a query timer is started), and
+//! SUIRON_STOP_QUERY holds the number of the latest query which was told
+//! to stop. The current query is stopped when the two are equal. Thus a
+//! timer which could not be cancelled can only stop the query it was
+//! started for, never a later one.
 
 use std::time::Duration;
+use std::sync::atomic::{AtomicU64, Ordering};
 use thread_timer::ThreadTimer;
 
 use super::logic_var::*;
 
-static mut SUIRON_STOP_QUERY: bool = false;
+static QUERY_EPOCH: AtomicU64 = AtomicU64::new(1);
+static SUIRON_STOP_QUERY: AtomicU64 = AtomicU64::new(0);
 
 /// Create a timer with a timeout in milliseconds.
 ///
@@ -26,10 +35,13 @@ static mut SUIRON_STOP_QUERY: bool = false;
 /// let timer = start_query_timer(300);
 /// ```
 pub fn start_query_timer(milliseconds: u64) -> ThreadTimer {
-    unsafe { SUIRON_STOP_QUERY = false; }
+    // A new epoch: SUIRON_STOP_QUERY becomes false.
+    let epoch = QUERY_EPOCH.fetch_add(1, Ordering::SeqCst) + 1;
     let timer = ThreadTimer::new();
     timer.start(Duration::from_millis(milliseconds),
-                move || { stop_query(); }).unwrap();
+                move || {
+                    SUIRON_STOP_QUERY.fetch_max(epoch, Ordering::SeqCst);
+                }).unwrap();
     return timer;
 } // start_query_timer()
 
@@ -59,7 +71,7 @@ pub fn cancel_timer(timer: ThreadTimer) {
 /// In order to keep the substitution set small, the LOGIC_VAR_ID is
 /// reset to 0 at the start of every query.
 pub fn start_query() {
-    unsafe { SUIRON_STOP_QUERY = false; }
+    QUERY_EPOCH.fetch_add(1, Ordering::SeqCst);
     clear_id();
 }
 
@@ -68,7 +80,8 @@ pub fn start_query() {
 /// The SUIRON_STOP_QUERY is checked in count_rules(), in knowledgebase.rs.
 /// Setting it `true` effectively stops the search for a solution.
 pub fn stop_query() {
-    unsafe { SUIRON_STOP_QUERY = true; }
+    let epoch = QUERY_EPOCH.load(Ordering::SeqCst);
+    SUIRON_STOP_QUERY.fetch_max(epoch, Ordering::SeqCst);
 }
 
 /// Returns value of SUIRON_STOP_QUERY.
@@ -77,7 +90,8 @@ pub fn stop_query() {
 /// # Return
 /// * true/false
 pub fn query_stopped() -> bool {
-    unsafe { SUIRON_STOP_QUERY }
+    SUIRON_STOP_QUERY.load(Ordering::SeqCst) ==
+        QUERY_EPOCH.load(Ordering::SeqCst)
 }
 
 #[cfg(test)]
